@@ -370,6 +370,32 @@ def run(rep):
                             rejected = sorted(c for c in chars if not pred(c))
                             consumes.rejected = rejected
                             return not rejected
+                        if n.get("local") and fn in F.fns and F.fns[fn].thir is not None and fn not in ("tokeniser::match_ahead",):
+                            # a phase function that is handed the iterator: every way out of it (falling off the end or `return`) has consumed
+                            callee = F.fns[fn]
+                            pids = [strip_ref(p_["pat"]).get("id") for p_, a_ in zip(callee.thir["params"], n["args"]) if p_.get("pat") is not None and q.base_var(a_) == it_id]
+                            if pids:
+                                pid = pids[0]
+
+                                def predc(y):
+                                    if y.get("k") != "Call" or not y.get("fn") or not y.get("args"):
+                                        return False
+                                    yf = y["fn"]
+                                    if yf.endswith(("Iterator::next", "Iterator::nth")) and q.base_var(y["args"][0]) == pid:
+                                        return True
+                                    if yf.endswith("tokeniser::consume_while") and q.base_var(y["args"][0]) == pid and len(y["args"]) == 2:
+                                        clo_ = peel(y["args"][1])
+                                        pr_ = char_pred(F, clo_["def"]) if clo_.get("k") == "Closure" else None
+                                        if pr_ is None or chars is None:
+                                            return False
+                                        rej_ = sorted(c for c in chars if not pr_(c))
+                                        if rej_:
+                                            consumes.rejected = rej_
+                                        return not rej_
+                                    return False
+                                exits = q.flow(callee.body, predc)
+                                if exits and all(c_ for ex_, c_ in exits if ex_ in ("fall", "return")):
+                                    return True
                         return any(consumes(x) for x in n["args"])
                     if k == "Block":
                         for s in n["stmts"]:
@@ -384,8 +410,12 @@ def run(rep):
                         return consumes(n["then"]) and n.get("else") is not None and consumes(n["else"])
                     if k == "Match":
                         return consumes(n["scrut"]) or all(consumes(x["body"]) for x in n["arms"])
-                    if k in ("Try",):
+                    if k in ("Try", "Unary", "Cast"):
                         return consumes(n["arg"])
+                    if k in ("Binary", "Logical"):
+                        return consumes(n["lhs"])  # (the left operand is always evaluated)
+                    if k == "Let":
+                        return n.get("init") is not None and consumes(n["init"])
                     return False
                 consumes.rejected = []
                 try:
@@ -396,6 +426,10 @@ def run(rep):
                         trys = [x for x in walk(a["body"]) if x.get("k") == "Try" and any(call_is(y, "::parse") for y in walk(x["arg"]))]
                         ifs = [x for x in walk(a["body"]) if x.get("k") == "If"]
                         both = bool(ifs) and all(any(t for t in trys if q.contains(br, t)) for br in (ifs[0]["then"], ifs[0]["else"]))
+                        if not both:
+                            # the same with the `?` outside: every parse of the collected text is under a `?`
+                            parses = [y for y in walk(a["body"]) if call_is(y, "::parse")]
+                            both = bool(parses) and all(any(q.contains(t["arg"], y) for t in trys) for y in parses)
                         if both:
                             ok = True
                             det = "'-' is rejected by the predicate: the collected text is empty, both branches parse it with `?`, so the function returns Err (single listed exception)"
